@@ -896,6 +896,13 @@ class TunnelCommunity(Community):
                 # delayed removal): do not re-route it.
                 self.logger.info("Ignoring created for the already extended circuit %s", request.from_circuit_id)
                 return
+            if created_request is not None:
+                if created_request.extended_identifier == request.extend_identifier:
+                    # We already extended the circuit for this attempt (a duplicated extend made us send two creates).
+                    self.logger.info("Ignoring second created for the same extend attempt on circuit %s",
+                                     request.from_circuit_id)
+                    return
+                created_request.extended_identifier = request.extend_identifier
             session_keys = self.exit_sockets[request.from_circuit_id].hop.keys
             self.remove_exit_socket(request.from_circuit_id, remove_now=True)
 
